@@ -310,7 +310,7 @@ func emitCase(c *vh.Ctx, kind, key string, uc *tls.UConn, berr error, pads map[*
 	}
 	fr := "None"
 	if fromRaw > 0 {
-		fr = fmt.Sprintf("(Some %d)", fromRaw)
+		fr = fmt.Sprintf("(Some %d%%uint63)", fromRaw)
 	}
 	term := fmt.Sprintf("CM %s %d %d %s %s [%s] %s %s", fr, h.Vers, len(h.SessionId), intlist(h.CipherSuites),
 		intlist(h.CompressionMethods), strings.Join(its, "; "), vh.Bool(haveRaw), words(data))
@@ -376,10 +376,10 @@ func sniLengths(c *vh.Ctx, id tls.ClientHelloID, base int) []int {
 			set[s] = true
 		}
 	} else {
-		for _, s := range []int{0, 1, 64, 255} {
+		for _, s := range []int{0, 1} {
 			set[s] = true
 		}
-		for _, target := range []int{255, 256, 507, 508, 511, 512} {
+		for _, target := range []int{256, 507, 508, 511, 512} {
 			s := target - base + 1
 			if s >= 1 && s <= 255 {
 				set[s] = true
